@@ -437,8 +437,9 @@ def judge_payment(p, gv):
             if k in l:
                 a = cg.parse(l[k]).q()
                 if l.get("currency") and l["currency"] != cur:
-                    # ExchangeRate.Convert: multiply at the amount's own precision, then rescale to the currency
-                    e = cg.parse(l[k]).e
+                    # ExchangeRate.Convert (as repaired): multiply at the amount's own precision or the destination
+                    # currency's, whichever has more decimals, then rescale to the currency
+                    e = max(cg.parse(l[k]).e, cdec)
                     x = a * rates[l["currency"]] * 10 ** e
                     a = Fraction(cg.rha(x.numerator, x.denominator), 10 ** e)
                     if e > cdec:
